@@ -415,7 +415,8 @@ func callSSA(i *interpreter, caller *frame, callpos token.Pos, fn *ssa.Function,
 	}
 	if fn.Parent() == nil {
 		if fn.Synthetic == "package initializer" && !i.runningInit[fn.Pkg] {
-			i.ensureInit(fn.Pkg)
+			// Imports are initialised lazily, on first use of one of their functions or
+			// globals, not eagerly from the importer's initialiser.
 			return nil
 		}
 		if p := fnPkg(fn); p != nil {
